@@ -398,7 +398,7 @@ def drive_lifetimes(rec, quick):
                     rec.violation(label + ": " + (why or "write outside a buffer"), {"kind": name, "m": mm})
                 else:
                     h1, h2 = hash2(got)
-                    events.append({"e": "Use", "id": ids[("t", t)], "arg": "d%d" % mm, "h1": h1, "h2": h2, "_what": label})
+                    events.append({"e": "Use", "id": ids[("t", t)], "arg": "data of the m=%d pass for dimension %d" % (m, mm), "h1": h1, "h2": h2, "_what": label})
                     ok += 1
                 # the caller's rounding mode is the caller's: the same call under round-down and round-up must leave the control state as
                 # it found it (the values computed under a directed mode are not judged)
